@@ -1,5 +1,6 @@
 (* C10 — mutator and getter histories behave like a plain set/map model. *)
-From UL Require Import Bytes Subtags LangId Ext Likely Ops OpsProofs.
+From UL Require Import Bytes Subtags LangId Ext Likely Inst Ops LocaleInv OpsProofs InvProofs TablesData OpsInvProofs.
+From Coq Require Import String.
 
 (* a call that returns an error (malformed key, value, attribute or tag) leaves the value unchanged *)
 Theorem C10_error_unchanged : forall T s o s', step T s o = Some (s', OutErr) -> s' = s.
@@ -12,5 +13,35 @@ Theorem C10_getters_pure : forall T s o s' w,
   end -> step T s o = Some (s', w) -> s' = s.
 Proof. exact getters_pure. Qed.
 
+(* the invariant the code silently relies on (canonical subtags, attributes strictly sorted, maps
+   strictly key-sorted, tags sorted, no value `true`) holds after every step of every history ... *)
+Theorem C10_inv : forall s o s' w, loc_inv s = true -> step the_tables s o = Some (s', w) -> loc_inv s' = true.
+Proof. exact (step_inv the_tables data_full_extend data_wf_ints). Qed.
+Theorem C10_inv_history : forall ops s steps, loc_inv s = true -> run the_tables s ops = Some steps ->
+  forallb (fun p => loc_inv (fst p)) steps = true.
+Proof. exact (run_inv the_tables data_full_extend data_wf_ints). Qed.
+(* ... so no binary_search is ever performed on an unsorted vector: no step, no history, is unspecified *)
+Theorem C10_no_unspec : forall s o, loc_inv s = true -> step the_tables s o <> None.
+Proof. exact (step_no_unspec the_tables). Qed.
+Theorem C10_history_defined : forall ops s, loc_inv s = true -> run the_tables s ops <> None.
+Proof. exact (run_defined the_tables data_full_extend data_wf_ints). Qed.
+(* histories start from default() or from any parsed value: both satisfy the invariant *)
+Theorem C10_start_default : loc_inv locale_default = true.
+Proof. reflexivity. Qed.
+Theorem C10_start_parsed : forall s l, locale_from_bytes s = Ok l -> loc_inv l = true.
+Proof. exact locale_parse_inv. Qed.
+
+Example C10_ex : exists st, run the_tables locale_default
+    [OSetAttribute (bs "foo"%string); OSetAttribute (bs "BAR"%string); OSetAttribute (bs "foo"%string); ORemoveAttribute (bs "foo"%string)]
+    = Some st /\ map (fun p => u_attrs (e_unicode (loc_ext (fst p)))) st
+                 = [[bs "foo"%string]; [bs "bar"%string; bs "foo"%string]; [bs "bar"%string; bs "foo"%string]; [bs "bar"%string]].
+Proof. eexists. split; vm_compute; reflexivity. Qed.
+
+Print Assumptions C10_inv.
+Print Assumptions C10_inv_history.
+Print Assumptions C10_no_unspec.
+Print Assumptions C10_history_defined.
+Print Assumptions C10_start_default.
+Print Assumptions C10_start_parsed.
 Print Assumptions C10_error_unchanged.
 Print Assumptions C10_getters_pure.
